@@ -115,7 +115,12 @@ def entries_for(rng, f, n, explicit=4):
             segs.append(['bulk', rng.choice([bk, bk_big]), n - k, rng.randint(0, 50000)])
         return segs
     if f in W.RAW_FAMILIES:
-        return [['rawbulk', f, rng.randint(0, 4), n, rng.randint(0, 50000)]] if n else []
+        if not n:
+            return []
+        kind, start = rng.randint(0, 4), rng.randint(0, 50000)
+        # these entries are spelled out in the Coq case: keep the literal below ~25 kB
+        size = max(1, len(W.raw_nlri(f, kind, start)))
+        return [['rawbulk', f, kind, max(1, min(n, 25000 // size)), start]]
     return []
 
 def nexthop_for(rng, f, natural=True):
@@ -145,9 +150,9 @@ def gen_cases(rng, tier):
     for code, sub, data in [(1, 2, [0, 18]), (2, 0, [1]), (2, 2, []), (2, 4, [9, 9]), (3, 1, [1, 2, 3]), (3, 5, [64, 1, 2]), (4, 0, []),
                             (4, 7, [1]), (5, 3, [9]), (6, 2, [3, 65, 66, 67]), (6, 9, []), (6, 0, [1]), (6, 12, [1, 2]), (7, 1, [0, 1]),
                             (9, 9, [1] * 50), (2, 6, [0, 2]), (3, 7, [5])]:
-        cases.append(mk(std_l, std_r, ['notif', code, sub, data], ['notif']))
+        cases.append(mk(std_l, std_r, ['notif', code, sub, ['b', data]], ['notif']))
     for n in ([4074, 4075, 4076, 5000] if quick else [4000, 4074, 4075, 4076, 4077, 5000, 65514, 65515, 70000]):
-        cases.append(mk(std_l, std_r, ['notif', 9, 9, W.be16(n)[:0] + [7] * n], ['notif', 'notif_big']))
+        cases.append(mk(std_l, std_r, ['notif', 9, 9, ['pat', n, 7]], ['notif', 'notif_big']))
     for f in ALL_FAMILIES:
         l, r = caps_pair([f], lmode=rng.choice([0, 3]), rmode=3)
         cases.append(mk(l, r, ['eor', f], ['eor']))
